@@ -146,4 +146,22 @@ theorem filter_insertCal (x : CalItem) (t : Int) (l : List CalItem) :
         simp [hx, hz, List.filter_cons]
       · simp [hx, List.filter_cons]
 
+
+theorem lookup_of_mem_nodup {α β} [BEq α] [LawfulBEq α] (l : List (α × β)) (h : (l.map (·.1)).Nodup) (a : α) (b : β)
+    (hm : (a, b) ∈ l) : l.lookup a = some b := by
+  induction l with
+  | nil => cases hm
+  | cons x xs ih =>
+    simp only [List.map_cons, List.nodup_cons] at h
+    simp only [List.mem_cons] at hm
+    rcases hm with hm | hm
+    · subst hm; simp [List.lookup]
+    · have hne : ¬ a = x.1 := by
+        intro he
+        exact h.1 (he ▸ List.mem_map_of_mem (f := (·.1)) hm)
+      have : (a == x.1) = false := by simpa using hne
+      obtain ⟨x1, x2⟩ := x
+      simp only [List.lookup, this]
+      exact ih h.2 hm
+
 end Verif.C05
